@@ -47,6 +47,10 @@ type Case struct {
 	FWarm bool `json:"fWarm"`
 	// interruption: the server side stream fails after this many messages of the first session (0 = never); enumerated by the property
 	CutAfter int `json:"cutAfter"`
+	// FailoverAtCall n > 0: when the follower's n-th request of the first session arrives, the source has just failed over with a partial
+	// resynchronisation: the leader reports [new id, previous id], its cache is re-labelled, and what it appends from here on belongs to
+	// the new history (n = 1: before the hand-shake, 2: between the hand-shake and the data request)
+	FailoverAtCall int `json:"failoverAtCall,omitempty"`
 }
 
 func genCase(t *rapid.T) Case {
@@ -80,11 +84,21 @@ func genCase(t *rapid.T) Case {
 		c.FLeft = rapid.Int64Range(50, 6000).Draw(t, "ofl")
 		c.FRight = c.FLeft + rapid.SampledFrom([]int64{5, 700, 9000, 20000}).Draw(t, "ofr")
 	}
+	switch c.FKind {
+	case "empty", "prefix", "equal", "behind":
+		if rapid.IntRange(0, 3).Draw(t, "failover") == 0 {
+			c.FailoverAtCall = rapid.IntRange(1, 3).Draw(t, "failoverAtCall")
+			c.LLive = 0 // the bytes that follow the switch are appended by the fail-over itself
+		}
+	}
 	return c
 }
 
 // stub input of the leader: reports the replication ids
-type stubInput struct{ ids []string }
+type stubInput struct {
+	mu  sync.Mutex
+	ids []string
+}
 
 func (s *stubInput) Id() string                                        { return "verif-src" }
 func (s *stubInput) Run() error                                        { return nil }
@@ -92,7 +106,12 @@ func (s *stubInput) Stop() error                                       { return 
 func (s *stubInput) SetOutput(o syncer.Output)                         {}
 func (s *stubInput) SetChannel(c syncer.Channel)                       {}
 func (s *stubInput) StateNotify(st syncer.SyncState) usync.WaitChannel { return nil }
-func (s *stubInput) RunIds() []string                                  { return s.ids }
+func (s *stubInput) RunIds() []string {
+	s.mu.Lock()
+	defer s.mu.Unlock()
+	return append([]string(nil), s.ids...)
+}
+func (s *stubInput) setIds(ids []string) { s.mu.Lock(); s.ids = ids; s.mu.Unlock() }
 
 // cutStream fails the server side after n messages
 type cutStream struct {
@@ -117,9 +136,14 @@ type server struct {
 	wait   usync.WaitCloser
 	cut    *atomic.Int64 // remaining messages before the interruption (nil = none)
 	sent   atomic.Int64
+	calls  atomic.Int64
+	onCall func(n int64)
 }
 
 func (s *server) Sync(req *pb.SyncRequest, st pb.ApiService_SyncServer) error {
+	if n := s.calls.Add(1); s.onCall != nil {
+		s.onCall(n)
+	}
 	return s.leader.Handle(s.wait, req, &cutStream{ApiService_SyncServer: st, left: s.cut, sent: &s.sent})
 }
 
@@ -253,8 +277,55 @@ func run(c Case) (fs []failure, inconc string, facts map[string]bool, msgs int) 
 	preID := F.C.RunId()
 
 	// ---- the link
-	srv := &server{leader: syncer.NewReplicaLeader(&stubInput{ids: []string{lead.RunID(), "0000000000000000000000000000000000000000"}}, L.C), wait: usync.NewWaitCloser(nil)}
+	var liveWG sync.WaitGroup
+	sin := &stubInput{ids: []string{lead.RunID(), "0000000000000000000000000000000000000000"}}
+	srv := &server{leader: syncer.NewReplicaLeader(sin, L.C), wait: usync.NewWaitCloser(nil)}
 	srv.leader.Start()
+	// the history the leader follows now (changes at a fail-over)
+	var nowMu sync.Mutex
+	leadNow := lead
+	getLead := func() *cache.Lineage { nowMu.Lock(); defer nowMu.Unlock(); return leadNow }
+	var failoverErr string
+	if c.FailoverAtCall > 0 {
+		var once sync.Once
+		srv.onCall = func(n int64) {
+			if n < int64(c.FailoverAtCall) {
+				return
+			}
+			once.Do(func() {
+				// the source was promoted: same bytes up to here, another history from here on; the leader's input has re-labelled its cache
+				// and reports the previous id second
+				_, r := L.C.GetOffsetRange(lead.RunID())
+				l2 := &cache.Lineage{ID: 2, Parent: lead, Fork: r}
+				// (the leader's input lost its source connection, reconnected, was granted a partial resynchronisation under the new id,
+				// re-labelled the cache and attached a new log writer at the same offset)
+				L.StopWriter()
+				if err := L.C.SetRunId(l2.RunID()); err != nil {
+					failoverErr = "leader SetRunId at fail-over: " + err.Error()
+					return
+				}
+				if e := L.StartAof(r); e != "" {
+					failoverErr = "leader writer after fail-over: " + e
+					return
+				}
+				sin.setIds([]string{l2.RunID(), lead.RunID()})
+				nowMu.Lock()
+				leadNow = l2
+				nowMu.Unlock()
+				if e := L.AppendBytes(l2.Bytes(r, 300), r, l2.RunID()); e != "" {
+					failoverErr = "leader append after fail-over: " + e
+				}
+				// ... and the new master keeps writing while the follower's request is being served
+				liveWG.Add(1)
+				go func() {
+					defer liveWG.Done()
+					time.Sleep(15 * time.Millisecond)
+					L.AppendBytes(l2.Bytes(r+300, 200), r+300, l2.RunID())
+				}()
+				facts["source-failed-over-during-session"] = true
+			})
+		}
+	}
 	if c.CutAfter > 0 {
 		srv.cut = &atomic.Int64{}
 		srv.cut.Store(int64(c.CutAfter))
@@ -270,7 +341,6 @@ func run(c Case) (fs []failure, inconc string, facts map[string]bool, msgs int) 
 	defer srv.wait.Close(nil)
 
 	// the leader keeps receiving from the source meanwhile
-	var liveWG sync.WaitGroup
 	lRight := c.LRight
 	if c.LLive > 0 {
 		liveWG.Add(1)
@@ -295,7 +365,12 @@ func run(c Case) (fs []failure, inconc string, facts map[string]bool, msgs int) 
 				return err, false
 			default:
 			}
-			if _, r := F.C.GetOffsetRange(lead.RunID()); r == lRight && F.C.RunId() == lead.RunID() {
+			cur := getLead()
+			want := lRight
+			if c.FailoverAtCall > 0 {
+				_, want = L.C.GetOffsetRange(cur.RunID())
+			}
+			if _, r := F.C.GetOffsetRange(cur.RunID()); r == want && F.C.RunId() == cur.RunID() && (c.FailoverAtCall == 0 || cur != lead) {
 				liveWG.Wait()
 				break
 			}
@@ -335,13 +410,20 @@ func run(c Case) (fs []failure, inconc string, facts map[string]bool, msgs int) 
 				fs = append(fs, failure{"ahead-follower-overwritten", fmt.Sprintf("%s: follower held [%d,%d], afterwards its right edge is %d", tag, c.FLeft, c.FRight, r)})
 			}
 		}
-		if id != "" && id != lead.RunID() {
-			if id != preID {
-				fs = append(fs, failure{"follower-under-unknown-id", fmt.Sprintf("%s: follower cache is labelled %s (leader %s, before %s)", tag, id, lead.RunID(), preID)})
+		cur := getLead()
+		if id != "" && id != cur.RunID() {
+			switch {
+			case cur != lead && id == lead.RunID():
+				// the source failed over and the follower still carries the id the leader had before (its own from the start, or adopted
+				// at the hand-shake): then it may hold bytes of that history only - nothing the leader has received since the switch
+				f2, _ := inspect(F, lead, id, tag+" (follower still labelled with the id from before the fail-over)")
+				fs = append(fs, f2...)
+			case id != preID:
+				fs = append(fs, failure{"follower-under-unknown-id", fmt.Sprintf("%s: follower cache is labelled %s (leader %s, before %s)", tag, id, cur.RunID(), preID)})
 			}
 			return
 		}
-		f2, held := inspect(F, lead, lead.RunID(), tag)
+		f2, held := inspect(F, cur, cur.RunID(), tag)
 		fs = append(fs, f2...)
 		if held > 0 {
 			facts["follower-holds-leader-bytes"] = true
@@ -361,6 +443,14 @@ func run(c Case) (fs []failure, inconc string, facts map[string]bool, msgs int) 
 				facts["caught-up-after-interruption"] = true
 			}
 		}
+	}
+	if c.FailoverAtCall > 0 && c.CutAfter == 0 && len(fs) == 0 && inconc == "" && failoverErr == "" && getLead() != lead {
+		// after the fail-over the follower comes back: it must end up with the new history (or with nothing of the old one beyond the switch)
+		err2, _ := session("session after the fail-over")
+		judge("after the fail-over and a reconnect", err2)
+	}
+	if failoverErr != "" && len(fs) == 0 {
+		inconc = failoverErr
 	}
 	liveWG.Wait()
 	_ = lLeft
